@@ -228,13 +228,46 @@ func genSigCase(t *rapid.T) (pub []byte, m *big.Int, sig cipher.Sig, class strin
 	d := genValidScalar().Draw(t, "d")
 	k := genValidScalar().Draw(t, "k")
 	m = genScalar().Draw(t, "m")
+	mut := rapid.IntRange(0, 14).Draw(t, "mut")
+	related := ""
+	if mut >= 12 {
+		// key, nonce and hash algebraically related so that the point additions inside verification / recovery meet
+		// their special cases (adding a point to itself or to its negation) - honest signatures never do
+		c := big.NewInt(int64(2*rapid.IntRange(0, 7).Draw(t, "c") + 1))
+		kr := curve.Mul(k, curve.G())
+		r0 := new(big.Int).Mod(kr.X, curve.N)
+		switch mut {
+		case 12: // recovery: s*R and -m*G coincide (d = 2ck, m = -c*k*r)
+			d = new(big.Int).Mul(big.NewInt(2), c)
+			d.Mul(d, k).Mod(d, curve.N)
+			m = new(big.Int).Mul(c, k)
+			m.Mul(m, r0).Neg(m).Mod(m, curve.N)
+			related = "related_recover_doubling"
+		case 13: // verification: (m/s)*G and (r/s)*Q coincide (m = r*d)
+			m = new(big.Int).Mul(r0, d)
+			m.Mod(m, curve.N)
+			related = "related_verify_doubling"
+		case 14: // small multiples: d = c*k, m = c*k*r (u1*G = u2*Q as well, through a different table entry)
+			d = new(big.Int).Mul(c, k)
+			d.Mod(d, curve.N)
+			m = new(big.Int).Mul(d, r0)
+			m.Mod(m, curve.N)
+			related = "related_small_multiple"
+		}
+		if !curve.ValidScalar(d) || m.Sign() == 0 {
+			d, m, related = big.NewInt(7), big.NewInt(11), ""
+		}
+	}
 	rr, ss, recid, ok := curve.Sign(d, m, k)
 	if !ok {
 		rr, ss, recid = big.NewInt(1), big.NewInt(1), 0
 	}
 	pub = curve.PubKey(d)
 	class = "valid"
-	switch rapid.IntRange(0, 11).Draw(t, "mut") {
+	if related != "" && ok {
+		return pub, m, sigOf(rr, ss, byte(recid)), related
+	}
+	switch mut {
 	case 0, 1:
 	case 2:
 		ss = new(big.Int).Sub(curve.N, ss) // high-s twin, recid not flipped
